@@ -497,7 +497,7 @@ class _PairsClassifierMixin(BaseMetricLearner, ClassifierMixin):
     y_predicted : `numpy.ndarray` of floats, shape=(n_constraints,)
       The predicted learned metric value between samples in every pair.
     """
-    check_is_fitted(self, 'preprocessor_')
+    check_is_fitted(self, ['preprocessor_', 'components_'])
 
     if "threshold_" not in vars(self):
       msg = ("A threshold for this estimator has not been set, "
